@@ -298,7 +298,8 @@ ROUND5 = {
     "C01": "Also (R01.11): cached pressure evaluations are handed to solveWall only by the detonation scan (where the upper pressure is proven >= 0), so the convergence guard on "
            "the runaway verdict cannot be bypassed; (R01.12): boundary data reach every pressure evaluation in the roles they were computed for (shared with C04).",
     "C02": "Also (R02.10): the v- returned by matchDeflagOrHyb is the one its junction conditions were solved with (shared with C06).",
-    "C05": "Also (R05.9): without a sign change maxAl returns the end of the range at which the residual was tested.",
+    "C05": "Also (R05.9): without a sign change maxAl returns the end of the range at which the residual was tested; (R05.10): each sentinel of findvwLTE is drawn only "
+           "after the convergence flag of the matching behind it was consulted (known finding F14 at the lower end).",
     "C06": "Also (R06.9): the template's shooting bracket is cut at its upper end and bracket offsets point inward (shared with C15 / C05).",
     "C08": "Also (R08.6): widths and relative offsets are clipped and bounded with bounds of their own kind (dimension inference restricted to the wall-parameter code).",
     "C10": "Also (R10.8): the cached range limits are stored only by the constructor and setExtrapolate (who-may-write).",
